@@ -171,8 +171,7 @@ func (env *Env) objVal(obj types.Object) (Val, bool) {
 		if !ok {
 			return Val{}, false
 		}
-		p := &Ptr{Kind: pGlobal, Glob: g, Root: o.Type()}
-		return e.loadPtr(env.st, p), true
+		return e.loadThrough(env.st, e.globalAddr(g)), true
 	}
 	return Val{}, false
 }
@@ -718,6 +717,49 @@ func (env *Env) evalCall(n ECall) Val {
 		return term(a, gt)
 	case "callresult0", "callresult1", "callresult2":
 		limitf("callresultN is an identifier, not a function")
+	case "allocated":
+		// allocated(p): p refers to an object that exists in the current state (or is nil)
+		v := env.eval(n.Args[0])
+		ref := e.asTerm(env.st, v)
+		if _, ok := v.Typ.Underlying().(*types.Slice); ok {
+			ref = fmt.Sprintf("(sl_ref %s)", ref)
+		}
+		return term(fmt.Sprintf("(and (<= 0 %s) (<= %s %s))", ref, ref, env.st.alloc), tBool)
+	case "deref":
+		// deref(p): the value a pointer points to
+		v := env.eval(n.Args[0])
+		if len(n.Args) == 2 {
+			// deref(p, "T"): p is an untyped pointer (unsafe.Pointer inside atomic.Pointer[T])
+			v.Typ = types.NewPointer(e.P.resolveType(typeArgText(n.Args[1]), env.pkg, env.fnForTypes()))
+		}
+		return e.loadThrough(env.st, v)
+	case "dyncall":
+		// dyncall(f, args..., "resultType"): the application of a pure function value (see opt puredyn);
+		// string arguments stand for byte-slice contents
+		fv := env.eval(n.Args[0])
+		rt := e.P.resolveType(typeArgText(n.Args[len(n.Args)-1]), env.pkg, env.fnForTypes())
+		name := "dyn_pure"
+		sorts := []string{"Int"}
+		ts := []string{e.asTerm(env.st, fv)}
+		for _, a := range n.Args[1 : len(n.Args)-1] {
+			v := env.eval(a)
+			if v.K == kConst {
+				v = e.coerce(v, tInt)
+			}
+			if b, ok := v.Typ.Underlying().(*types.Basic); ok && b.Info()&types.IsString != 0 {
+				sorts = append(sorts, "String")
+				ts = append(ts, v.T)
+				name += "_bytes"
+				continue
+			}
+			sorts = append(sorts, e.sortOf(v.Typ))
+			ts = append(ts, e.asTerm(env.st, v))
+			name += "_" + mangle(e.sortOf(v.Typ))
+		}
+		name += "_to_" + mangle(e.sortOf(rt))
+		e.S.DeclareFun(name, sorts, e.sortOf(rt))
+		e.pureRangeAxiom(name, sorts, rt)
+		return term(fmt.Sprintf("(%s %s)", name, strings.Join(ts, " ")), rt)
 	case "implements":
 		// implements(x, pkg.Iface): the dynamic type of x implements the interface (same predicate as a type assertion)
 		v := env.eval(n.Args[0])
